@@ -25,14 +25,16 @@ import numpy as np
 from common import *
 
 IMPORTS = "From CV Require Import Base.Cmp Model.C09_Gibbs.\nFrom Coq Require Import QArith.\nLocal Open Scope Q_scope."
-RULE = ("joint targets with 2-4 blocks (dims 1-2, par_names order shuffled), random parent sets (cycles allowed), 0-2 data factors "
-        "(likelihoods); 14 HybridGibbs cells (recording / experimental MH / Direct / NUTS-branch samplers and mixtures x per-block step counts "
-        "1-3 incl. missing keys and None x call sequences: sample, repeated sample, warm-up(tune_freq 0.1/0.25/0.5/1.0)+sample, "
-        "warm-up twice; default, array and plain-number initial points) and 9 legacy cells (recording / cuqi.sampler.MH, tuple keys, "
-        "warm-up+sample, continuation over 2-3 calls, refused second warm-up, refused continuation after a warm-up-only call); values "
-        "inside cells from the seed; 2 fixed witnesses always run. Per run one case for the whole trace, plus (MH blocks) one for the "
-        "cached evaluations and (plain-number initial points) one for get_samples. distinct = distinct (target, assignment, script, "
-        "call sequence, check); trivial = the 4 oracle-only cells (MALA/ULA/CWMH/PCN cache oracle, Coq term `true`)")
+RULE = ("joint targets with 2-4 blocks (dims 1-2, par_names order shuffled, strategy dict order != par_names), random parent sets "
+        "(cycles allowed), 0-2 data factors; 14 HybridGibbs + 9 legacy cells on O(1) dyadic joints (recording / experimental MH / "
+        "Direct / NUTS-branch samplers x step counts 1-3 incl. missing keys x sample / repeated sample / warm-up(tune_freq) / warm-up "
+        "twice / refused second legacy warm-up / legacy continuation after a warm-up-only call; default, array and plain-number initial "
+        "points); SCALE cells (block scales 2^-40..2^40 mixed, tiny, huge) and FINE-MOVE cells (relative moves 2^-20, 2^-30, 2^-36 at "
+        "scales 1, 2^40, 2^-40, with exact repeats) for both interfaces, a partial-move cell; 12 REAL cells (Gaussian/Gamma hierarchy and "
+        "Gaussian pair with Conjugate, LinearRTO, NUTS, MALA, ULA, CWMH, PCN, MH, Direct; x on scales 2^-40..2^20); 2 fixed witnesses. "
+        "Per run one case for the whole trace, plus one for cached evaluations and one for get_samples. distinct = distinct (target, "
+        "assignment, script/seed, call sequence, check); trivial = the 4 oracle-only cache probes and the cache cases of the REAL cells")
+
 
 SIG_STALE = "HybridGibbs.step|restored-cached-target-evaluation-of-previous-conditional:%s"
 NAMES = ["x", "s", "d", "w"]
